@@ -252,8 +252,35 @@ def rule_elimination(ctx):
         t_in = [c for c in tu if any(x is c for x in walk(tloop[0]))][0]
         ctx.check(R, "remove_syntactic_sugar/templates/anonymous-before-tuples", an[0]["line"] < t_in["line"], "the tuple remover assumes anonymous components are gone", site(SSR, top))
         t = render(tloop[0]["body"]).replace(" ", "")
-        ctx.check(R, "remove_syntactic_sugar/templates/result-of-last-stage-is-stored", "*new_template.get_mut_body()=new_body;" in t and "new_templates.insert(name.clone(),new_template);" in t, "", site(SSR, top))
-        ctx.check(R, "remove_syntactic_sugar/templates/tuples-removed-from-the-desugared-body", "remove_tuples_from_statement(new_body_with_inits)" in t, "", site(SSR, top))
+        import sgrep
+        lb = tloop[0]["body"]
+        envt = sgrep.lets(lb)
+        # the value stored as the template body is (bound from) the result of the tuple remover
+        stored = [b_ for _n, b_ in sgrep.find(lb, "*__nt.get_mut_body() = __nb")]
+        oks = False
+        for b_ in stored:
+            init = envt.get(b_["__nb"])
+            oks = oks or (init is not None and any(True for _ in calls(init, "remove_tuples_from_statement"))) or "remove_tuples_from_statement" in b_["__nb"]
+            oks = oks and sgrep.has(lb, "__m.insert(__k, __nt)", None, {"__nt": b_["__nt"]})
+        ctx.check(R, "remove_syntactic_sugar/templates/result-of-last-stage-is-stored", oks, "the body stored for the template must be the tuple remover's result", site(SSR, top))
+        # the tuple remover runs on what the anonymous remover produced
+        arg = strip(t_in["args"][0])
+        seen_, okd = set(), False
+        frontier = [arg]
+        while frontier:
+            e_ = frontier.pop()
+            for pth in [x["path"] for x in walk(e_) if x["k"] == "Path"]:
+                if pth in seen_:
+                    continue
+                seen_.add(pth)
+                for l_ in walk(lb):
+                    if l_["k"] == "Local" and l_["init"] is not None and pth in [x["name"] for x in walk(l_["pat"]) if x["k"] == "PIdent"]:
+                        if any(x is an[0] for x in walk(l_["init"])):
+                            okd = True
+                        frontier.append(l_["init"])
+                    if l_["k"] == "If" and l_["cond"]["k"] == "Let" and pth in [x["name"] for x in walk(l_["cond"]["pat"]) if x["k"] == "PIdent"]:
+                        frontier.append(l_["cond"]["e"])
+        ctx.check(R, "remove_syntactic_sugar/templates/tuples-removed-from-the-desugared-body", okd, "the argument of remove_tuples_from_statement must derive from the result of remove_anonymous_from_statement", site(SSR, top))
     # functions: filter rejects tuples, anonymous components and the residue
     if len(floop) != 1:
         return ctx.missing(R, "remove_syntactic_sugar/function-loop")
@@ -278,7 +305,10 @@ def rule_contains(ctx):
         if q.endswith("for Expression"):
             n += a10.check(ctx, R, SST, "contains_expr", q, AST, "Expression", {"contains_expr"}, scrutinee="self")
             t = render(f["body"]).replace(" ", "")
-            ctx.check(R, "Expression::contains_expr/matcher-on-self", "ifmatcher(self){callback(self.meta());returntrue;}" in t, "", site(SST, f))
+            import sgrep
+            pvx = sgrep.params(f)
+            okx = len(pvx) == 2 and any(i_["k"] == "If" and sgrep.match(sgrep.pattern("__m(self)"), i_["cond"], {"__m": pvx[0]}) and sgrep.has(i_["then"], "__c(self.meta())", None, {"__c": pvx[1]}) and any(r_["k"] == "Return" and render(strip(r_["e"])) == "true" for r_ in walk(i_["then"])) for i_ in walk(f["body"]))
+            ctx.check(R, "Expression::contains_expr/matcher-on-self", okx, "", site(SST, f))
         elif q.endswith("for Statement"):
             n += a10.check(ctx, R, SST, "contains_expr", q, AST, "Statement", {"contains_expr"}, scrutinee="self")
     ctx.floor(R, "children", n, 30)
@@ -348,29 +378,95 @@ def rule_binding(ctx):
         ctx.check(R, "anonymous/%s-in-declaration-order" % nm, v is not None and render(strip(v)).replace(" ", "") == want, "%s = %s" % (nm, render(v) if v else "?"), site(SSR, fn))
     bad = [render(m)[:60] for m in walk(fn["body"]) if m["k"] == "MethodCall" and m["method"] in ("get_inputs", "get_outputs")]
     ctx.check(R, "anonymous/no-sorted-maps", not bad, "uses the name-sorted maps: %s" % bad, site(SSR, fn))
-    t = render(fn["body"]).replace(" ", "")
-    # named inputs: position looked up by the input's own name, used for both the signal and the operator
-    ctx.check(R, "anonymous/named-input/value-and-operator-by-the-same-position", "letpos=names.iter().position(|r|(*r==inp.0)).unwrap();new_signals.push(signals.get(pos).unwrap().clone());new_operators.push(*operators.get(pos).unwrap());" in t, "the operator of a named input must be taken at the position of that name", site(SSR, fn))
-    ctx.check(R, "anonymous/named-input/names-and-operators-unzipped-together", "let(operators,names)=m.iter().cloned().unzip();" in t, "", site(SSR, fn))
-    ctx.check(R, "anonymous/positional-input/constraint-assignment", "new_signals.clone_from(&signals);for_in0..signals.len(){new_operators.push(AssignOp::AssignConstraintSignal);}" in t, "", site(SSR, fn))
-    ctx.check(R, "anonymous/arity-checked", "if((inputs.len()!=new_signals.len())||(inputs.len()!=signals.len()))" in t, "", site(SSR, fn))
-    ctx.check(R, "anonymous/missing-named-input-rejected", "if!names.contains(&inp.0){returnErr(" in t, "", site(SSR, fn))
-    ctx.check(R, "anonymous/input-i-gets-signal-i-and-operator-i", "new_signals.get(i).unwrap().clone()" in t and "op:*new_operators.get(i).unwrap()" in t and "(i+=1);" in t, "", site(SSR, fn))
-    ctx.check(R, "anonymous/input-assigned-to-its-port", "acc.push(Access::ComponentAccess(inp.0.clone()));" in t and "var:id_anon_temp.clone(),access:acc" in t, "", site(SSR, fn))
-    ctx.check(R, "anonymous/instantiation-first", "letsub=build_substitution(meta.clone(),id_anon_temp.clone(),access,AssignOp::AssignVar,exp_with_call);seq_substs.push(sub);" in t and t.index("seq_substs.push(sub);") < t.index("seq_substs.push(subs);"), "", site(SSR, fn))
-    ctx.check(R, "anonymous/unknown-template-rejected", "iftemplate.is_none(){returnErr(" in t, "", site(SSR, fn))
+    import sgrep
+    body = fn["body"]
+    t = render(body).replace(" ", "")
+    # names of the working variables, found by what they are built from
+    b = {}
+    r = sgrep.find(body, "let (__ops, __names) = __m.iter().cloned().unzip()")
+    ctx.check(R, "anonymous/named-input/names-and-operators-unzipped-together", len(r) == 1, "the (operator, name) pairs are split into two parallel vectors", site(SSR, fn))
+    if r:
+        b.update({k: v for k, v in r[0][1].items() if k in ("__ops", "__names")})
+    ok_pos = False
+    for n_, bb in sgrep.find(body, "let __pos = __names.iter().position(|__r| *__r == __inp.0).unwrap()", None, {k: v for k, v in b.items() if k == "__names"}):
+        b2 = dict(b)
+        b2.update({"__pos": bb["__pos"]})
+        sv = sgrep.find(body, "__ns.push(__sig.get(__pos).unwrap().clone())", None, {"__pos": bb["__pos"]})
+        ov = sgrep.find(body, "__no.push(*__ops.get(__pos).unwrap())", None, {"__pos": bb["__pos"], "__ops": b.get("__ops", "operators")})
+        if sv and ov:
+            ok_pos = True
+            b["__ns"], b["__no"], b["__sig"], b["__inp"] = sv[0][1]["__ns"], ov[0][1]["__no"], sv[0][1]["__sig"], bb["__inp"]
+    ctx.check(R, "anonymous/named-input/value-and-operator-by-the-same-position", ok_pos, "the value and the operator of a named input must both be taken at the position of that input's name in the call", site(SSR, fn))
+    ns, no, sig = b.get("__ns", "new_signals"), b.get("__no", "new_operators"), b.get("__sig", "signals")
+    okp = sgrep.has(body, "__ns.clone_from(__sig)", None, {"__ns": ns, "__sig": sig}) and sgrep.has(body, "for _ in 0..__sig.len() { __no.push(AssignOp::AssignConstraintSignal); }", None, {"__no": no, "__sig": sig})
+    ctx.check(R, "anonymous/positional-input/constraint-assignment", okp, "positional inputs are all assigned with `<==`, one operator per signal", site(SSR, fn))
+    inputs = [k for k, v in sgrep.lets(body).items() if render(strip(v)).replace(" ", "").endswith(".get_declaration_inputs()")]
+    inp_name = inputs[0] if inputs else "inputs"
+    ar = [i_ for i_ in walk(body) if i_["k"] == "If" and sgrep.has(i_["cond"], "__i.len() != __a.len()", None, {"__i": inp_name})]
+    oka = any(("%s.len()!=%s.len()" % (inp_name, ns)) in render(i_["cond"]).replace(" ", "") and ("%s.len()!=%s.len()" % (inp_name, sig)) in render(i_["cond"]).replace(" ", "") and "Err(" in render(i_["then"]) for i_ in ar)
+    ctx.check(R, "anonymous/arity-checked", oka, "the number of inputs must equal both the number of bound signals and the number of signals written in the call", site(SSR, fn))
+    okm = any(i_["k"] == "If" and sgrep.has(i_["cond"], "!__names.contains(__inp.0)", None, {"__names": b.get("__names", "names")}) and "Err(" in render(i_["then"]) for i_ in walk(body))
+    ctx.check(R, "anonymous/missing-named-input-rejected", okm, "", site(SSR, fn))
+    # input i gets signal i and operator i
+    cnt = [k for k, v in sgrep.lets(body).items() if render(strip(v)) == "0"]
+    oki = False
+    for c_ in cnt:
+        if sgrep.has(body, "__ns.get(__i).unwrap().clone()", None, {"__ns": ns, "__i": c_}) and sgrep.has(body, "*__no.get(__i).unwrap()", None, {"__no": no, "__i": c_}) and sgrep.has(body, "__i += 1", None, {"__i": c_}):
+            oki = True
+    ctx.check(R, "anonymous/input-i-gets-signal-i-and-operator-i", oki, "one counter indexes the bound signals and their operators and is advanced once per input", site(SSR, fn))
+    okport = False
+    for st_ in walk(body):
+        if st_["k"] == "Struct" and last(st_["path"]) == "Substitution":
+            fl = {x["name"]: x["e"] for x in st_["fields"]}
+            if "new_operators" in render(fl.get("op", {"k": "?"})) or no in render(fl.get("op", {"k": "?"})):
+                accn = render(strip(fl["access"]))
+                okport = sgrep.has(body, "__acc.push(Access::ComponentAccess(__inp.0.clone()))", None, {"__acc": accn}) or sgrep.has(body, "__acc.push(Access::ComponentAccess(__inp.0))", None, {"__acc": accn})
+    ctx.check(R, "anonymous/input-assigned-to-its-port", okport, "the input substitution's access path ends with the input's own port name", site(SSR, fn))
+    subs_inst = [c_ for c_ in walk(body) if c_["k"] == "Call" and c_["func"]["k"] == "Path" and last(c_["func"]["path"]) == "build_substitution" and len(c_["args"]) == 5 and render(strip(c_["args"][3])).endswith("AssignVar")]
+    first_push = sorted([p_ for p_ in method_calls(body, "push") if "seq_substs" in render(p_["recv"]) or True], key=lambda x: x.get("mline", x["line"]))
+    seqp = [p_ for p_ in method_calls(body, "push") if render(strip(p_["recv"])) in [render(strip(q["recv"])) for q in method_calls(body, "push") if any(x is y for y in walk(q["args"][0]) for x in subs_inst)] or False]
+    oki2 = False
+    if subs_inst:
+        # the push of the instantiation precedes (in source order) every push of an input substitution into the same vector
+        le_ = sgrep.lets(body)
+        inst_names = [k for k, v in le_.items() if any(x is subs_inst[0] for x in walk(v))] + [None]
+        pushes_ = sorted(method_calls(body, "push"), key=lambda x: x.get("mline", x["line"]))
+        inst_push = [p_ for p_ in pushes_ if render(strip(p_["args"][0])) in inst_names or any(x is subs_inst[0] for x in walk(p_["args"][0]))]
+        if inst_push:
+            vec = render(strip(inst_push[0]["recv"]))
+            same = [p_ for p_ in pushes_ if render(strip(p_["recv"])) == vec]
+            oki2 = bool(same) and same[0] is inst_push[0]
+    ctx.check(R, "anonymous/instantiation-first", oki2, "the component is instantiated before any of its inputs is assigned", site(SSR, fn))
+    okt = any(i_["k"] == "If" and render(strip(i_["cond"])).replace(" ", "").endswith(".is_none()") and "Err(" in render(i_["then"]) and "does not exist" in render(i_["then"]) for i_ in walk(body))
+    ctx.check(R, "anonymous/unknown-template-rejected", okt, "", site(SSR, fn))
     # tuple assignment: element-wise, in order, `_` consumes
     rt = find_fn(SSR, "remove_tuples_from_statement")
     if rt is not None:
-        t = render(rt["body"]).replace(" ", "")
-        ok = "letlhe=lhe_values.remove(0);" in t and "letrhe=rhe_values.remove(0);" in t
-        ctx.check(R, "tuples/element-wise-in-order", ok, "both sides are consumed from the front, one element per step", site(SSR, rt))
-        # the rhe removal must not be under the `_` test
-        rem = [m for m in method_calls(rt["body"], "remove") if render(strip(m["recv"])) == "rhe_values"]
-        okk = len(rem) == 1 and not any("\"_\"" in fact_str(c) for c in (conditions_to(rt["body"], rem[0]) or []))
-        ctx.check(R, "tuples/underscore-consumes-its-value", okk, "the right-hand element must be consumed even when the target is `_` (otherwise later elements shift)", site(SSR, rt))
-        ctx.check(R, "tuples/underscore-not-assigned", 'if(name!="_"){substs.push(build_substitution(meta.clone(),name.clone(),access.to_vec(),op,rhe));}' in t, "", site(SSR, rt))
-        ctx.check(R, "tuples/length-checked", "if(lhe_values.len()==rhe_values.len())" in t, "", site(SSR, rt))
+        rb = rt["body"]
+        lr = sgrep.find(rb, "let __l = __lv.remove(0)")
+        okel = False
+        det = ""
+        if len(lr) == 2:
+            # the two vectors of the (Tuple, Tuple) arm
+            vecs = [x[1]["__lv"] for x in lr]
+            okel = len(set(vecs)) == 2
+            det = "vectors %s" % vecs
+        ctx.check(R, "tuples/element-wise-in-order", okel, "both sides are consumed from the front, one element per step (%s)" % det, site(SSR, rt))
+        # the removal from the right-hand vector must not be under the `_` test
+        under = False
+        for n_, bb in lr:
+            cs_ = [fact_str(c) for c in (conditions_to(rb, n_) or [])]
+            if any('"_"' in c for c in cs_):
+                under = True
+        ctx.check(R, "tuples/underscore-consumes-its-value", okel and not under, "the right-hand element must be consumed even when the target is `_` (otherwise later elements shift)", site(SSR, rt))
+        okun = False
+        for c_ in walk(rb):
+            if c_["k"] == "Call" and c_["func"]["k"] == "Path" and last(c_["func"]["path"]) == "build_substitution" and any(c[0] == "loop" for c in (conditions_to(rb, c_) or [])):
+                cs_ = [fact_str(c).replace(" ", "") for c in (conditions_to(rb, c_) or [])]
+                okun = any(re.fullmatch(r'\(\w+!="_"\)', c) or re.fullmatch(r'!\(\w+=="_"\)', c) for c in cs_)
+        ctx.check(R, "tuples/underscore-not-assigned", okun, "an element whose target is `_` produces no substitution", site(SSR, rt))
+        oklen = any(i_["k"] == "If" and re.fullmatch(r"\((\w+)\.len\(\)==(\w+)\.len\(\)\)", render(i_["cond"]).replace(" ", "")) for i_ in walk(rb))
+        ctx.check(R, "tuples/length-checked", oklen, "", site(SSR, rt))
     # template data: declaration order recorded next to the maps
     td = None
     for q, f in fns_in_file(TD):
